@@ -262,9 +262,15 @@ Theorem C10_check_sound_fixed : forall c,
 Proof. exact check_sound_fixed. Qed.
 Print Assumptions C10_check_sound_fixed.
 
-(** expiry enforcement of both cache semantics, for all operation sequences:
-    whatever a Get returns was put there by the last successful Set of that key
-    and, if that Set carried a positive ttl, not longer ago than the ttl *)
+(** expiry enforcement demanded of the OBSERVED cache (real memory.Cache / redis
+    cache), for all recorded Set/Get sequences: the evaluator's predicate
+    [cache_prop] says that whatever a Get returned was put there by the last
+    successful Set of that key and, if that Set carried a positive ttl, the Get was
+    issued no later than ttl after the Set returned.  It follows from
+    correspondence, which for a real cache means: it never answers what the model
+    cache -- Sets at their return instants, Gets at their issue instants -- no
+    longer holds; in particular never at or after set-return + ttl (an early or
+    late miss is no disagreement) *)
 Theorem C10_cache_expiry_enforced : forall f b ops,
   let v := check f (CCache b ops) in
   v_corr v = true -> v_guards v = [] -> v_prop v = true.
